@@ -74,3 +74,59 @@ inline std::string kdf_str(const deps::KdfCall& c) {
 }
 
 } // namespace lib
+
+namespace lib {
+
+// tokens of a library-produced phrase, model-free: NFKD (turns the ideographic space into U+0020), split on ' '
+inline std::vector<std::string> tokens(const std::string& phrase) {
+    std::string d = model::nfkd(phrase); std::vector<std::string> t; size_t p = 0;
+    for (;;) { size_t e = d.find(' ', p); if (e == std::string::npos) { t.push_back(d.substr(p)); break; } t.push_back(d.substr(p, e - p)); p = e + 1; }
+    return t;
+}
+inline std::string join(const std::vector<std::string>& t, const std::string& sep = " ") { std::string s; for (size_t i = 0; i < t.size(); i++) { if (i) s += sep; s += t[i]; } return s; }
+
+// A seed object whose secret, birthday and features are all zero, built through create only.
+inline polyseed_data* zero_seed() {
+    deps::Kit& k = deps::kit(0); k.rand_bytes.assign(19, 0); k.rand_pos = 0; k.clock = model::EPOCH;
+    polyseed_data* s = nullptr; if (polyseed_create(0, &s) != 0) return nullptr; return s;
+}
+
+// Index -> word table of a language taken from the library itself: the second word of the zero
+// seed's phrase for coin k is word k (the coin is XORed into word 2).  Words are NFKD tokens.
+// `ok` is false when the table is not self-consistent (then callers skip, they do not report).
+struct LibWords { std::vector<std::string> w; bool ok = false; std::string why; };
+inline const LibWords& lib_words(const LangEntry& le) {
+    static std::map<const polyseed_lang*, LibWords> cache;
+    auto it = cache.find(le.lang); if (it != cache.end()) return it->second;
+    LibWords lw; polyseed_data* z = zero_seed();
+    if (!z) { lw.why = "cannot create the zero seed"; return cache[le.lang] = lw; }
+    lw.w.resize(2048); std::map<std::string, int> seen; bool good = true;
+    for (unsigned k = 0; k < 2048 && good; k++) {
+        auto t = tokens(encode(z, le.lang, k));
+        if (t.size() != 16) { good = false; lw.why = "zero-seed phrase does not have 16 tokens"; break; }
+        lw.w[k] = t[1];
+        if (seen.count(t[1])) { good = false; lw.why = "coin " + std::to_string(k) + " and coin " + std::to_string(seen[t[1]]) + " show the same second word"; }
+        seen[t[1]] = (int)k;
+        for (int j = 0; j < 16; j++) if (j != 1 && k > 0 && t[j] != lw.w[0]) { good = false; lw.why = "zero-seed phrase has unequal words outside position 2"; }
+    }
+    polyseed_free(z);
+    if (good) { // 16 x word 0 must be a valid phrase (all-zero polynomial)
+        std::vector<std::string> t(16, lw.w[0]); polyseed_data* s = nullptr;
+        int st = polyseed_decode_explicit(join(t).c_str(), (polyseed_coin)0, le.lang, &s);
+        if (st == 0) polyseed_free(s); else { good = false; lw.why = std::string("16 x word[0] decodes to ") + model::status_name(st); }
+    }
+    lw.ok = good; return cache[le.lang] = lw;
+}
+
+inline int decode_x(const std::string& phrase, unsigned coin, const polyseed_lang* l, Image* img = nullptr) {
+    polyseed_data* s = nullptr; int st = (int)polyseed_decode_explicit(phrase.c_str(), (polyseed_coin)coin, l, &s);
+    if (st == 0) { if (img) *img = store(s); polyseed_free(s); }
+    return st;
+}
+inline int decode_auto(const std::string& phrase, unsigned coin, const polyseed_lang** lo = nullptr, Image* img = nullptr) {
+    polyseed_data* s = nullptr; int st = (int)polyseed_decode(phrase.c_str(), (polyseed_coin)coin, lo, &s);
+    if (st == 0) { if (img) *img = store(s); polyseed_free(s); }
+    return st;
+}
+
+} // namespace lib
